@@ -430,7 +430,7 @@ func (x *FnExec) execBlock(fr *Frame, b *ssa.BasicBlock, st0 *State, g0 *Term) {
 					if nx, ok := in.(*ssa.Next); ok {
 						if r, ok := nx.Iter.(*ssa.Range); ok {
 							mt := r.X.Type().Underlying().(*types.Map)
-							st.cells[r] = x.tc.Fresh("disc.visited", SArr(x.scalarSort(mt.Key()), SBool))
+							st.cells[r] = TupleV{x.tc.Fresh("disc.visited", SArr(x.scalarSort(mt.Key()), SBool)), x.tc.Fresh("disc.nvisited", x.refSort())}
 						}
 					}
 				}
@@ -595,7 +595,7 @@ func (x *FnExec) enterLoop(fr *Frame, li *loopInfo, ps []stParent, preds []*ssa.
 		case *ssa.Range:
 			// visited set of a map iteration
 			mt := av.X.Type().Underlying().(*types.Map)
-			st.cells[a] = x.tc.Fresh("visited", SArr(x.scalarSort(mt.Key()), SBool))
+			st.cells[a] = TupleV{x.tc.Fresh("visited", SArr(x.scalarSort(mt.Key()), SBool)), x.tc.Fresh("nvisited", x.refSort())}
 		}
 	}
 	phis := map[*ssa.Phi]Value{}
@@ -1566,7 +1566,7 @@ func (x *FnExec) mapLen(st *State, mt *types.Map, m *Term) *Term {
 	c := x.tc.Select(st.getHeap(card, SArr(rs, rs)), m)
 	r := x.tc.Ite(x.tc.Eq(m, x.refConst(0)), x.refConst(0), c)
 	if !r.bound {
-		x.addFact(x.intLe(x.refConst(0), c))
+		x.addFact(x.tc.And(x.intLe(x.refConst(0), c), x.intLe(c, x.intConstSort(1<<48, x.refSort()))))
 	}
 	return r
 }
@@ -1588,7 +1588,7 @@ func (x *FnExec) rangeInit(fr *Frame, v *ssa.Range, st *State, g *Term) Value {
 		unsupp("range over map with compound key")
 	}
 	// visited-set model: nothing visited yet
-	st.setCell(v, x.constArray(SArr(ks, SBool), x.tc.False()))
+	st.setCell(v, TupleV{x.constArray(SArr(ks, SBool), x.tc.False()), x.refConst(0)})
 	return &mapIter{mt: mt, m: fr.val(v.X).(*Term), rng: v}
 }
 
@@ -1604,16 +1604,20 @@ func (x *FnExec) rangeNext(fr *Frame, v *ssa.Next, st *State, g *Term) Value {
 	dom, _, _, ks, _ := x.mapHeaps(st, mt)
 	rs := x.refSort()
 	vis, _ := st.getCell(it.rng)
-	visited := vis.(*Term)
+	visited := vis.(TupleV)[0].(*Term)
+	count := vis.(TupleV)[1].(*Term)
 	domArr := tc.Select(st.getHeap(dom, SArr(rs, SArr(ks, SBool))), it.m)
 	isNil := tc.Eq(it.m, x.refConst(0))
+	card := x.mapLen(st, mt, it.m)
 	k := tc.Fresh("rangekey", ks)
 	x.rangeFact(k, mt.Key())
 	okT := tc.Fresh("rangeok", SBool)
 	bk := tc.BVar("k", ks)
-	x.assume(g, tc.Implies(okT, tc.And(tc.Not(isNil), tc.Select(domArr, k), tc.Not(tc.Select(visited, k)))))
-	x.assume(g, tc.Implies(tc.Not(okT), tc.Or(isNil, tc.Forall([]*Term{bk}, tc.Implies(tc.Select(domArr, bk), tc.Select(visited, bk))))))
-	st.setCell(it.rng, tc.Ite(okT, tc.Store(visited, k, tc.True()), visited))
+	// visited keys are keys of the map, each counted once
+	x.assume(g, tc.And(x.intLe(x.refConst(0), count), x.intLe(count, card)))
+	x.assume(g, tc.Implies(okT, tc.And(tc.Not(isNil), tc.Select(domArr, k), tc.Not(tc.Select(visited, k)), x.intLt(count, card))))
+	x.assume(g, tc.Implies(tc.Not(okT), tc.And(tc.Eq(count, card), tc.Or(isNil, tc.Forall([]*Term{bk}, tc.Implies(tc.Select(domArr, bk), tc.Select(visited, bk)))))))
+	st.setCell(it.rng, TupleV{tc.Ite(okT, tc.Store(visited, k, tc.True()), visited), tc.Ite(okT, x.intAdd(count, x.refConst(1)), count)})
 	val := x.mapValHeapRead(st, mt, it.m, k)
 	return TupleV{okT, k, val}
 }
